@@ -601,7 +601,10 @@ mod integrations {
 		}
 	}
 
-	pub fn gen_bits<T: BitStore, O: BitOrder>(g: &mut G) -> BitVec<T, O> {
+	pub fn gen_bits<T: BitStore, O: BitOrder>(g: &mut G) -> BitVec<T, O>
+	where
+		T: From<u8>,
+	{
 		let w = core::mem::size_of::<T>() * 8;
 		let n = match g.rng.below(6) {
 			0 => 0,
@@ -610,20 +613,41 @@ mod integrations {
 			3 => 2 * w - 1 + g.rng.below(3) as usize,
 			_ => g.rng.below(131) as usize,
 		};
-		let mut bv = BitVec::<T, O>::new();
-		// a prefix that is later dropped: the kept bits start at an offset inside the first word
-		let skip = if g.rng.chance(1, 2) { g.rng.below(w as u64 * 2) as usize } else { 0 };
-		for _ in 0..skip + n {
-			bv.push(g.rng.chance(1, 2));
-		}
-		if skip > 0 {
-			bv.split_off(skip)
-		} else {
-			bv
+		match g.rng.below(4) {
+			0 => {
+				// dirty padding: built from whole (all-ones / random) storage words, then truncated,
+				// so the bits beyond `len` in the last word are not zero in memory
+				let words = n / w + 1;
+				let mut raw: Vec<T> = Vec::new();
+				for _ in 0..words {
+					raw.push(T::from(if g.rng.chance(1, 2) { 0xff } else { g.rng.below(256) as u8 }));
+				}
+				let mut bv = BitVec::<T, O>::from_vec(raw);
+				bv.truncate(n);
+				bv
+			},
+			1 => {
+				let mut bv = BitVec::<T, O>::repeat(true, n + g.rng.below(5) as usize);
+				bv.truncate(n);
+				bv
+			},
+			_ => {
+				let mut bv = BitVec::<T, O>::new();
+				// a prefix that is later dropped: the kept bits start at an offset inside the first word
+				let skip = if g.rng.chance(1, 2) { g.rng.below(w as u64 * 2) as usize } else { 0 };
+				for _ in 0..skip + n {
+					bv.push(g.rng.chance(1, 2));
+				}
+				if skip > 0 {
+					bv.split_off(skip)
+				} else {
+					bv
+				}
+			},
 		}
 	}
 
-	impl<T: BitStore + StoreName, O: BitOrder + OrderName> Modeled for BitVec<T, O> {
+	impl<T: BitStore + StoreName + From<u8>, O: BitOrder + OrderName> Modeled for BitVec<T, O> {
 		fn ty(d: usize) -> String {
 			format!("bits {} {}", T::NAME, O::NAME)
 		}
@@ -637,7 +661,7 @@ mod integrations {
 			1
 		}
 	}
-	impl<T: BitStore + StoreName, O: BitOrder + OrderName> Modeled for BitBox<T, O> {
+	impl<T: BitStore + StoreName + From<u8>, O: BitOrder + OrderName> Modeled for BitBox<T, O> {
 		fn ty(d: usize) -> String {
 			format!("bits {} {}", T::NAME, O::NAME)
 		}
